@@ -126,7 +126,8 @@ POOL = [
     ("date-dd-lower", "DD.MM.YYYY (dd)"), ("date-yyyy-lower", "YYYY yyyy"), ("date-hh-upper", "hh:mm HH"),
     ("date-lower-only", "dd.mm.yyyy"), ("date-ss-upper", "ss SS"), ("date-mm-both", "MM mm MM"),
     ("re-star", "*a"), ("re-range", "[z-a]"), ("re-quantifier", "a{2,1}"), ("re-names", "(?P<n>a)(?P<n>b)"),
-    ("re-backref", "\\1"), ("re-flag", "(?i"), ("re-repeat-huge", "a{99999999999999999999}"),
+    ("re-backref", "\\1"), ("re-flag", "(?i"), ("re-flags-clash", "(?a)(?u)x"), ("re-flag-late", "x(?i)"),
+    ("re-flag-local-clash", "(?a-a:x)"), ("re-repeat-huge", "a{99999999999999999999}"),
     ("codec-hex", "hex"), ("codec-rot13", "rot13"), ("codec-undefined", "undefined"),
     ("field-name", "customer_id"), ("field-names", "customer_id, customer_id"), ("keyword", "class"),
     ("type-name", "Integer"), ("type-dotted", "fields.Integer"), ("check-name", "IsUnique"),
